@@ -65,6 +65,7 @@ class Recorder:
         self.calls = 0  # index of generated user-callable invocations
         self.faults = dict(faults or {})  # call index -> kind filter (or True)
         self.faults_fired = []
+        self.always = set()  # (kind, name) pairs that raise at every call
         self.abort_cb = None
         self.call_kinds = []  # kind per call index (for enumeration runs)
         self.keep_call_kinds = False
@@ -90,6 +91,10 @@ class Recorder:
         idx = self.calls
         if self.keep_call_kinds:
             self.call_kinds.append((kind, name))
+        if self.always and (kind, name) in self.always:
+            self.faults_fired.append((idx, kind, name))
+            self.rec("fault", idx, kind, name)
+            raise InjectedFault(f"injected@{idx}:{kind}:{name}")
         f = self.faults.get(idx)
         if f is not None and (f is True or f == kind or (isinstance(f, (list, tuple)) and kind in f)):
             self.faults_fired.append((idx, kind, name))
